@@ -1,2 +1,3 @@
 pub mod inflight;
 pub mod window;
+pub mod selection;
